@@ -320,5 +320,6 @@ def replay(shard, rp):
 TECHNIQUE = 'differential single-step execution of the four real simulators against an executable reference model of the Z80 (arithmetic, table-free), exhaustive over the flag-table index spaces'
 LEVEL_TEXT = ('Every (A, operand, carry) triple of the eight ALU operations, every (A, F) pair of DAA/CPL/SCF/CCF/NEG/RLCA/RRCA/RLA/RRA and all INC/DEC/CB operand values are executed as real '
               'instructions on the Python and C, plain and contended simulators and compared with a reference interpreter written from the instruction-set description; all 1792 opcode slots '
-              'are additionally executed from boundary-biased states (registers, flags S Z H P/V N C, stores, port events, T-states, PC/SP wrap points).')
+              'are additionally executed from boundary-biased states (registers, flags S Z H P/V N C, stores, port events, T-states, PC/SP wrap points; block instructions aimed at their repeat decision), '
+              'and the Python simulator built with its fast_ldir/fast_djnz shortcuts must end one run() in the state of the iterated instruction.')
 LEVEL_NOTE = 'The reference was debugged against the unchanged tree until silent, so a misreading shared with the authors is invisible; bits 5/3 and MEMPTR are excluded as the property says.'
